@@ -26,6 +26,8 @@ Definition verb_of (name : string) (n : nat) : option verb :=
   else if name =? "query" then Some VQuery
   else if name =? "status" then Some VQuery
   else if name =? "metrics" then Some VQuery
+  else if name =? "mdetail" then Some VQuery
+  else if name =? "mdetailbad" then Some (VRejected 0)
   else if name =? "local" then Some VLocal
   else if name =? "none" then Some VUnserved
   else if name =? "launch" then Some VUnserved
